@@ -19,8 +19,10 @@ RULE = ('(a) all registered definitions: each eager argument is '
         'spellings are emitted in reversed and rotated order; (b) Hypothesis '
         'expressions of depth <=4 over and/or/not, comparisons, arithmetic, '
         '?., switch, selectCase, switchCase, coalesce, list and map '
-        'expressions with a probe on every operand, log predicted by '
-        'models of their documented meaning; (c) 30 per-element lambda '
+        'expressions with a probe on every operand (about one leaf in twelve '
+        'is an operand that fails when evaluated: index, key, division, '
+        'resolution error), log and failure predicted by models of their '
+        'documented meaning; (c) 30 per-element lambda '
         'contracts over lists of distinct integers; non-trivial = >=2 probes '
         'and (a lazy position whose contract predicts "not evaluated" for '
         'some probe, or a name with >=2 overloads, or a permuted keyword '
@@ -135,6 +137,16 @@ def check_sweep(run, case):
 # --------------------------------------------------------------------------
 # (b) contracts of lazily evaluating operators: AST + model
 
+class Boom(Exception):
+    """an operand that fails while it is evaluated"""
+
+
+BOOMS = {'index': ('[tick(%d, 1)][9]', 'IndexError'),
+         'key': ('{a => tick(%d, 1)}.zz', 'KeyError'),
+         'zero': ('(tick(%d, 1) / 0)', 'ZeroDivisionError'),
+         'nomatch': ("(tick(%d, 1) + 'a')", 'NoMatchingFunctionException')}
+
+
 class Ev:
     """model evaluator: returns value, appends probe ids to log"""
 
@@ -149,6 +161,9 @@ class Ev:
             return v
         if k == 'lit':
             return n[1]
+        if k == 'boom':
+            self.log.append(n[1])
+            raise Boom(n[2])
         if k == 'and':
             a = self.ev(n[1])
             return a and self.ev(n[2])
@@ -215,6 +230,8 @@ def text_of(n):
         return 'tick(%d, %s)' % (n[1], text_of(n[2]))
     if k == 'lit':
         return common.lit(n[1])
+    if k == 'boom':
+        return BOOMS[n[2]][0] % n[1]
     if k in ('and', 'or'):
         return '(%s %s %s)' % (text_of(n[1]), k, text_of(n[2]))
     if k == 'not':
@@ -258,6 +275,8 @@ def check_contract(run, case):
     m = Ev()
     try:
         exp = ('ok', m.ev(ast))
+    except Boom as b:
+        exp = ('boom', str(b))
     except Exception:   # noqa
         exp = ('err', None)
     text = text_of(ast)
@@ -278,6 +297,24 @@ def check_contract(run, case):
              cls=['contract'] + sorted({'has-' + k for k in _kinds(ast)}))
     ic = '+'.join(sorted(_kinds(ast) - {'tick', 'lit'}))
     if exp[0] == 'err':
+        return
+    if exp[0] == 'boom':
+        # the failure of an evaluated operand is the failure of the whole
+        # expression, and nothing is evaluated after it
+        want = BOOMS[exp[1]][1]
+        if got[0] == 'ok':
+            run.violate('operand-failure-swallowed', case,
+                        '%s -> %r although the operand with probe %d fails'
+                        % (text, got[1], m.log[-1]), input_class=ic)
+        elif want is not None and type(got[1]).__name__ != want:
+            run.violate('operand-failure-replaced', case,
+                        '%s raised %s, the failing operand raises %s' % (
+                            text, type(got[1]).__name__, want), exc=got[1],
+                        input_class=ic)
+        elif log != m.log:
+            run.violate('evaluation-trace-differs', case,
+                        '%s: evaluation log %r, contract predicts %r (then '
+                        'the failure)' % (text, log, m.log), input_class=ic)
         return
     if got[0] != 'ok':
         run.violate('contract-expression-raises', case, '%s raised %s: %s' % (
@@ -307,7 +344,7 @@ def _canon(x):
 def _ids(n):
     out = []
     if isinstance(n, tuple):
-        if n and n[0] == 'tick':
+        if n and n[0] in ('tick', 'boom'):
             out.append(n[1])
         for c in n:
             out.extend(_ids(c))
@@ -502,6 +539,9 @@ def asts():
             return ('tick', next(ids), n)
         ids = node.ids
         if depth >= 3 or draw(st.integers(0, 3)) == 0:
+            if draw(st.integers(0, 11)) == 0:
+                return ('boom', next(ids), draw(st.sampled_from(
+                    sorted(BOOMS))))
             return t(('lit', draw(leaf_vals)))
         k = draw(st.sampled_from(['and', 'or', 'not', 'eq', 'list', 'map',
                                   'coalesce', 'switch', 'selectCase',
@@ -529,7 +569,7 @@ def asts():
             return t((k, tuple((sub(), sub()) for _ in range(draw(
                 st.integers(0, 3))))))
         if k == 'switchCase':
-            case = ('tick', next(ids), ('lit', draw(st.integers(-1, 4))))
+            case = ('tick', next(ids), ('lit', draw(st.integers(-7, 7))))
             return t((k, case, tuple(sub() for _ in range(draw(
                 st.integers(0, 4))))))
         if k in ('elvis', 'arrow'):
